@@ -843,6 +843,10 @@ inline ConnectResult Transport::connectSync(const std::string &host, std::uint16
     // Woken by teardown. Do NOT erase pendingConnects (teardown owns and is
     // iterating the maps, L-NEW-1) and do NOT touch engine->close (engine is
     // being torn down, M-1). The guard decrements activeConnects on return.
+    // The entry stays, and a connect that completes from here on must not consume
+    // it: this call reports ShuttingDown, so the session id is handed to nobody and
+    // the close that engine->stop() delivers for it has to stay suppressed as well.
+    op->abandoned = true;
     return ConnectResult::err(
       TransportErrorInfo{TransportError::ShuttingDown, "transport shutting down"});
   }
